@@ -736,6 +736,11 @@ class NumpyModel:
         if isinstance(x, np.ndarray):
             return x.copy()
         if isinstance(x, (list, tuple)):
+            if x and all(isinstance(v, (bool, np.bool_)) for v in x):
+                b_ = np.empty(len(x), dtype=object)      # a boolean array stays boolean (it may be used as a mask)
+                for i_, v in enumerate(x):
+                    b_[i_] = bool(v)
+                return b_
             xs = [self.np_array(v) if isinstance(v, (list, tuple, np.ndarray)) else v for v in x]
             if xs and all(isinstance(v, np.ndarray) for v in xs):
                 return np.stack(xs) if xs[0].ndim else mkarr([v.item() for v in xs])
